@@ -111,6 +111,7 @@ class Engine:
         self.inv_props = None
         self.async_faults = []      # e.g. ["KeyboardInterrupt"]: injected before every statement outside `finally`
         self.globals_obj = None     # Ref of the heap object holding the mutable module globals of the function's module
+        self.theory = set()         # names of Rec kinds that are values of a specification theory: operations dispatch to methods[(kind, op)]
 
     # ------------------------------------------------------------------ utilities
     def oblige(self, name, st, goal, prop=None, **meta):
@@ -401,6 +402,8 @@ class Engine:
                     return [(Bound(v, name), s)]
             raise Unsupported(f"class attribute {v.name}.{name}")
         if isinstance(v, Rec):
+            if v.name in self.theory:
+                return [(Bound(v, name), s)]
             if name in v.f:
                 return [(v.f[name], s)]
             if (v.name, name) in self.attrs:
@@ -462,6 +465,8 @@ class Engine:
         return outs
 
     def getslice(self, v, lo, hi, step, s):
+        if isinstance(v, Rec) and v.name in self.theory:
+            return self.theory_op(v, "__getslice__", (lo, hi, step), s)
         if step is not None:
             if all(not is_sym(x) for x in (lo, hi, step)) and isinstance(v, (tuple, str, bytes, list)):
                 return [(v[lo:hi:step], s)]
@@ -485,7 +490,15 @@ class Engine:
             return [(v.slice(lo, hi), s)]
         raise Unsupported(f"slice of {v!r}")
 
+    def theory_op(self, v, name, args, s):
+        f = self.methods.get((v.name, name))
+        if f is None:
+            raise Unsupported(f"{name} on a {v.name} value")
+        return f(self, s, v, args, {})
+
     def getitem(self, v, i, s):
+        if isinstance(v, Rec) and v.name in self.theory:
+            return self.theory_op(v, "__getitem__", (i,), s)
         if isinstance(v, Rec):
             v = v.astuple()
         if isinstance(v, Ref):
@@ -595,6 +608,10 @@ class Engine:
 
     def binop(self, op, a, b, s):
         """-> [(value, state)]"""
+        if isinstance(a, Rec) and a.name in self.theory:
+            return self.theory_op(a, {ast.Add: "__add__", ast.Mult: "__mul__"}.get(type(op), "__binop__"), (b,), s)
+        if isinstance(b, Rec) and b.name in self.theory:
+            return self.theory_op(b, {ast.Add: "__radd__", ast.Mult: "__rmul__"}.get(type(op), "__rbinop__"), (a,), s)
         if isinstance(a, Rec) and a.name != "digits":
             a = a.astuple()
         if isinstance(b, Rec) and b.name != "digits":
@@ -630,6 +647,10 @@ class Engine:
                 return [(z3.Concat(zs(a), zs(b)), s)]
             raise Unsupported("operation on a symbolic string")
         if isinstance(a, (str, TS)) or isinstance(b, (str, TS)):
+            if isinstance(a, TS) and isinstance(b, bytes):
+                b = b.decode("latin1")
+            if isinstance(b, TS) and isinstance(a, bytes):
+                a = a.decode("latin1")
             try:
                 return [(tstr.str_binop(op, a, b), s)]
             except tstr.PyRaise as ex:
@@ -1068,6 +1089,10 @@ class Engine:
         raise Unsupported(f"call of {f!r} at line {getattr(node, 'lineno', '?')}")
 
     def call_method(self, recv, name, args, kwargs, s):
+        if isinstance(recv, Rec) and recv.name in self.theory:
+            return self.theory_op(recv, name, args, s)
+        if name == "join" and len(args) == 1 and isinstance(args[0], Rec) and args[0].name in self.theory:
+            return self.theory_op(args[0], "__joined__", (recv,), s)
         if isinstance(recv, Ref):
             for c in self.mro(recv.cls):
                 if (c, name) in self.methods:
@@ -1618,6 +1643,7 @@ class Engine:
     def for_symbolic(self, n, seq, s0, lid, spec):
         outs = []
         N = to_z3(seq.length)
+        spec.entry = s0        # the state at loop entry (invariants may relate ghost counters to their entry values)
         self.oblige(f"loop{lid}/inv-entry", s0, spec.inv(s0, z3.IntVal(0), N), kind="invariant")
         if spec.qinv:
             self.qoblige(f"loop{lid}/inv-entry", s0, spec.qinv(s0, z3.IntVal(0), N), kind="invariant")
